@@ -599,8 +599,8 @@ def campaign(build, tier, seed, report, budget=1):
 
     jobs = []
     for s in ex_scn:
-        jobs.append(("explore", dict(scenario=s, max_execs=(6000 if quick else 60000) * budget,
-                                     seconds=(70 if quick else 600))))
+        jobs.append(("explore", dict(scenario=s, max_execs=(6000 if quick else 15000) * budget,
+                                     seconds=(70 if quick else 300))))
     for s in rnd_scn:
         jobs.append(("random", dict(scenario=s, n=(40 if quick else 200) * budget, seed=rng.randrange(1 << 30))))
     jobs.append(("schedule", dict(scenario=witness_scn, sched=witness_sched)))
